@@ -131,9 +131,9 @@ impl BoundingSphereSolver for Epos6 {
                 p[i] -= spheres[idx].radius;
                 p
             })
-            .chain(idx_min.into_iter().enumerate().map(|(i, idx)| {
+            .chain(idx_max.into_iter().enumerate().map(|(i, idx)| {
                 let mut p = spheres[idx].center;
-                p[i] -= spheres[idx].radius;
+                p[i] += spheres[idx].radius;
                 p
             }))
             .collect::<Vec<_>>();
